@@ -59,6 +59,8 @@ struct World {
   // latch
   size_t latch_count = 0;
   size_t down_begun = 0;
+  size_t down_returned = 0;
+  std::vector<dsched::Stamp> down_stamps;
   uint64_t last_down_begin_step = NEVER;
   // callbacks / ops
   std::vector<CbRec> cbs;
@@ -298,8 +300,12 @@ struct FutureCase {
     babylon::Future<uint64_t, M> f;
     uint64_t expect;
   };
-  std::vector<Deferred> deferred;       // then-futures whose result is collected at the end
-  std::vector<babylon::Future<void, M>> deferred_void;
+  // then-futures whose result is collected at the end. One list per thread: copying a Future contains
+  // schedule points (reference count), so a container shared between threads would be corrupted.
+  std::vector<Deferred> deferred_by[dsched::MAXT];
+  std::vector<babylon::Future<void, M>> deferred_void_by[dsched::MAXT];
+  std::vector<Deferred>& my_deferred() { return deferred_by[dsched::tid() < 0 ? 0 : dsched::tid()]; }
+  std::vector<babylon::Future<void, M>>& my_deferred_void() { return deferred_void_by[dsched::tid() < 0 ? 0 : dsched::tid()]; }
 
   bool after_set() { return W->set_returned && dsched::ordered_after(W->set_end_stamp); }
   int waits_now() {
@@ -336,7 +342,7 @@ struct FutureCase {
           uint64_t got = f.get();
           if (got != expect) dsched::fail("then-value", "then-future carries %lu, expected f(v) = %lu", (unsigned long)got, (unsigned long)expect);
         } else {
-          deferred.push_back(Deferred{f, expect});
+          my_deferred().push_back(Deferred{f, expect});
         }
         break;
       }
@@ -356,12 +362,12 @@ struct FutureCase {
           uint64_t got = f.get();
           if (got != expect) dsched::fail("then-value", "ready then-future carries %lu, expected %lu", (unsigned long)got, (unsigned long)expect);
         } else {
-          deferred.push_back(Deferred{f, expect});
+          my_deferred().push_back(Deferred{f, expect});
         }
         break;
       }
       default:
-        deferred.push_back(Deferred{f, expect});
+        my_deferred().push_back(Deferred{f, expect});
         break;
     }
   }
@@ -373,7 +379,7 @@ struct FutureCase {
       babylon::Future<void, M> fv = f.then([idx](Val& v) { on_cb(idx, &v); });
       if (after && !fv.ready()) dsched::fail("after-set", "void then-future of a ready future is not ready");
       if (may_block && op.consume == 0) fv.get();
-      deferred_void.push_back(fv);
+      my_deferred_void().push_back(fv);
       return;
     }
     babylon::Future<uint64_t, M> f2 = f.then([idx](Val& v) -> uint64_t {
@@ -542,19 +548,21 @@ struct FutureCase {
       if (!base.ready()) dsched::fail("after-set", "ready() == false at the end");
       if (!base.wait_for(std::chrono::nanoseconds(-1))) dsched::fail("after-set", "wait_for(-1ns) == false at the end");
       check_value(base.get(), "final get()");
-      for (auto& d : deferred) {
+      for (auto& deferred : deferred_by)
+       for (auto& d : deferred) {
         if (!d.f.ready()) dsched::fail("then-value", "a then-future is still not ready after set_value and every callback finished");
         uint64_t got = d.f.get();
         if (got != d.expect) dsched::fail("then-value", "then-future carries %lu, expected %lu", (unsigned long)got, (unsigned long)d.expect);
       }
-      for (auto& f : deferred_void)
+      for (auto& deferred_void : deferred_void_by)
+       for (auto& f : deferred_void)
         if (!f.ready()) dsched::fail("then-value", "a void then-future is still not ready at the end");
       for (size_t i = 0; i < W->cbs.size(); i++)
         if (W->cbs[i].runs != 1)
           dsched::fail("callback-once", "callback #%zu (registered by T%d) ran %d times", i, W->cbs[i].reg_tid, W->cbs[i].runs);
       if (W->ctor_count != 1) dsched::fail("value-lifetime", "value constructed %d times", W->ctor_count);
-      deferred.clear();
-      deferred_void.clear();
+      for (auto& v : deferred_by) v.clear();
+      for (auto& v : deferred_void_by) v.clear();
     }
     if (W->live_vals != 0) dsched::fail("value-lifetime", "%d values alive after the promise and every future were destroyed", W->live_vals);
 
@@ -582,6 +590,12 @@ struct LatchCase {
   using Fut = babylon::Future<size_t, M>;
   bool complete = true;
 
+  static bool latch_after() {
+    if (!W->set_returned) return false;
+    for (auto& st : W->down_stamps)
+      if (!dsched::ordered_after(st)) return false;
+    return dsched::ordered_after(W->set_end_stamp);
+  }
   void observed_ready(const char* how) {
     if (W->down_begun != W->latch_count)
       dsched::fail("latch-early", "%s reports the latch ready after count_down calls worth %zu of %zu had begun", how, W->down_begun, W->latch_count);
@@ -591,7 +605,7 @@ struct LatchCase {
     dsched::label(lop_name[op.kind]);
     switch (op.kind) {
       case L_WAIT: {
-        bool after = W->set_returned && dsched::ordered_after(W->set_end_stamp);
+        bool after = latch_after();
         bool r = timed_wait(f, op.tmo, after, "latch future");
         if (r) {
           observed_ready("wait_for == true");
@@ -600,7 +614,7 @@ struct LatchCase {
         break;
       }
       case L_READY: {
-        bool after = W->set_returned && dsched::ordered_after(W->set_end_stamp);
+        bool after = latch_after();
         bool r = f.ready();
         if (r) observed_ready("ready()");
         if (after && !r) dsched::fail("latch-ready", "latch not ready although the count_down that reached zero had returned before the call");
@@ -676,14 +690,15 @@ struct LatchCase {
           pool.start(t, [&, t] {
             for (size_t d : downs[(size_t)t]) {
               W->down_begun += d;
-              bool last = W->down_begun == W->latch_count;
-              if (last) W->ctor_done_step = dsched::step();
+              if (W->down_begun == W->latch_count) W->ctor_done_step = dsched::step();
               latch->count_down(d);
-              if (last) {
-                // the call that brought the count to zero has published the future when it returns
+              W->down_returned += d;
+              W->down_stamps.push_back(dsched::stamp());
+              if (W->down_returned == W->latch_count) {
+                // whichever call brought the count to zero has returned by now (it is not known which one:
+                // "after" therefore means ordered after every count_down call, see latch_after())
                 W->set_end_step = dsched::step();
                 W->set_end_ns = dsched::now_ns();
-                W->set_end_stamp = dsched::stamp();
                 W->set_returned = true;
               }
               dsched::point();
